@@ -4,9 +4,9 @@ use proptest::prelude::*;
 use serde_json::{json, Value};
 use vmodel::{
     engine::{fingerprint, Failure, ShardCtx, Verdict},
-    refs::{lcp, ref_complete, Completion},
+    refs::{lcp, ref_complete_p, Completion},
     screen::Screen,
-    session::{CmdSet, EnumSet, GroupSet, TlSet, PROMPTS, TL_NAMES},
+    session::{CmdSet, EnumSet, GroupSet, TlSet, PROMPTS, TL_NAMES, TL_PARTIAL},
 };
 
 use super::{
@@ -49,10 +49,12 @@ pub struct TabCase {
     pub cursor: usize,
     pub cap: usize,
     pub prompt: usize,
+    /// "tl" set only: where the hand-written Autocomplete calls `mark_partial()` (session::TL_PARTIAL)
+    pub partial: u8,
 }
 
 pub fn tab_json(c: &TabCase) -> Value {
-    json!({"set": c.set, "names": c.names, "line": c.line, "cursor": c.cursor, "cmd_buf": c.cap, "prompt": c.prompt})
+    json!({"set": c.set, "names": c.names, "line": c.line, "cursor": c.cursor, "cmd_buf": c.cap, "prompt": c.prompt, "partial": c.partial})
 }
 
 fn tab_from(v: &Value) -> TabCase {
@@ -63,6 +65,7 @@ fn tab_from(v: &Value) -> TabCase {
         cursor: v["cursor"].as_u64().unwrap_or(0) as usize,
         cap: v["cmd_buf"].as_u64().unwrap_or(0) as usize,
         prompt: v["prompt"].as_u64().unwrap_or(0) as usize,
+        partial: v["partial"].as_u64().unwrap_or(0) as u8,
     }
 }
 
@@ -119,7 +122,7 @@ pub fn judge_tab(c: &TabCase, names_for_model: &[String], obs: &vmodel::genrun::
     }
     let mut model_names: Vec<String> = names_for_model.to_vec();
     model_names.push("help".to_string());
-    let exp = ref_complete(&model_names, &c.line, c.cursor, c.cap);
+    let exp = ref_complete_p(&model_names, &c.line, c.cursor, c.cap, c.partial != 0);
     let mut zone_open = false;
     match &exp {
         Completion::Unchanged => {
@@ -167,7 +170,10 @@ fn run_any(c: &TabCase) -> Result<(bool, bool), (String, String)> {
         "group" => run_tab::<GroupSet>(c, &GroupSet::names()),
         _ => {
             TL_NAMES.with(|n| *n.borrow_mut() = c.names.clone());
-            run_tab::<TlSet>(c, &c.names)
+            TL_PARTIAL.with(|p| p.set(c.partial));
+            let r = run_tab::<TlSet>(c, &c.names);
+            TL_PARTIAL.with(|p| p.set(0));
+            r
         }
     }
 }
@@ -233,9 +239,10 @@ fn line_for(names: Vec<String>) -> impl Strategy<Value = (Vec<String>, String, u
 }
 
 fn case_strategy() -> impl Strategy<Value = TabCase> {
-    (name_strategy().prop_flat_map(line_for), 0usize..5).prop_map(|((names, line, cur, extra), prompt)| {
+    (name_strategy().prop_flat_map(line_for), 0usize..5, prop_oneof![5 => Just(0u8), 1 => Just(1u8), 1 => Just(2u8), 1 => Just(3u8)]).prop_map(|((names, line, cur, extra), prompt, partial)| {
         let n = line.chars().count();
         TabCase {
+            partial,
             set: "tl".into(),
             names,
             cursor: (cur as usize * (n + 1)) >> 16,
@@ -264,6 +271,7 @@ fn fixed_case_strategy() -> impl Strategy<Value = TabCase> {
             let line = format!("{}{}{}{}", " ".repeat(lead), pick(&words, w), " ".repeat(trail), second);
             let n = line.chars().count();
             TabCase {
+                partial: 0,
                 set: set.to_string(),
                 names: vec![],
                 cursor: (cur as usize * (n + 1)) >> 16,
@@ -332,6 +340,7 @@ fn macro_case_strategy(names: Vec<String>) -> impl Strategy<Value = TabCase> {
     (line_for(names), 0usize..5).prop_map(|((names, line, cur, extra), prompt)| {
         let n = line.chars().count();
         TabCase {
+            partial: 0,
             set: "decl".into(),
             names,
             cursor: (cur as usize * (n + 1)) >> 16,
